@@ -269,7 +269,7 @@ def classify_c03(v, h, text):
     rh = v.get(h, "raw_host")
     if rh is not None and rh.startswith("!"):
         return "skip"
-    rh = dec(rh) if rh and rh not in ("~",) else None
+    rh = ("" if rh == "" else dec(rh)) if rh is not None and rh not in ("~",) else None
     path = dec(v.get(h, "raw_path") or "")
     if scheme and not re.match(r"^[a-z][a-z0-9+.\-]*$", scheme):
         return "skip"
